@@ -157,6 +157,8 @@ impl Gossip {
         if let Some((to_gossip_tx, from_gossip_tx, guard)) = self.senders.read().await.get(&topic)
             && guard.has_subscriptions()
         {
+            #[cfg(p2panda_p2panda_verif)]
+            crate::verif_c29::yield_point("stream_fast_window");
             return Ok(GossipHandle::new(
                 topic,
                 max_message_size,
@@ -191,6 +193,8 @@ impl Gossip {
         };
 
         // Register a new session with the gossip actor.
+        #[cfg(p2panda_p2panda_verif)]
+        crate::verif_c29::yield_point("stream_slow_before_subscribe");
         let (to_gossip_tx, from_gossip_tx) =
             call!(inner.actor_ref, ToGossipManager::Subscribe, topic, node_ids)
                 .map_err(Box::new)?;
@@ -199,6 +203,8 @@ impl Gossip {
         //
         // `from_gossip_tx` is used to create a broadcast receiver when the user calls
         // `subscribe()` on `GossipHandle`.
+        #[cfg(p2panda_p2panda_verif)]
+        crate::verif_c29::yield_point("stream_slow_before_insert");
         let mut senders = self.senders.write().await;
         senders.insert(
             topic,
@@ -494,6 +500,8 @@ impl Drop for TopicDropGuard {
         let no_references_left = previous_counter == INITIAL_COUNTER;
 
         if no_references_left {
+            #[cfg(p2panda_p2panda_verif)]
+            crate::verif_c29::yield_point("drop_before_unsubscribe");
             trace!(
                 topic = self.topic.fmt_short(),
                 actor_id = %self.actor_ref.get_id(),
@@ -505,6 +513,32 @@ impl Drop for TopicDropGuard {
                 .actor_ref
                 .send_message(ToGossipManager::Unsubscribe(self.topic));
         }
+    }
+}
+
+#[cfg(p2panda_p2panda_verif)]
+#[doc(hidden)]
+impl Gossip {
+    /// Verification hook: a `Gossip` front end over any actor that understands the manager's
+    /// messages (a probe), without an iroh endpoint.
+    pub fn verif_new(
+        actor_ref: ActorRef<ToGossipManager>,
+        my_node_id: NodeId,
+        address_book: AddressBook,
+        config: GossipConfig,
+    ) -> Self {
+        Self::new(actor_ref, my_node_id, address_book, config)
+    }
+}
+
+#[cfg(p2panda_p2panda_verif)]
+#[doc(hidden)]
+impl GossipHandle {
+    /// Verification hook: current value of the topic's reference counter.
+    pub fn verif_guard_counter(&self) -> usize {
+        self._guard
+            .counter
+            .load(std::sync::atomic::Ordering::SeqCst)
     }
 }
 
